@@ -35,8 +35,14 @@ let () = iter_lines (fun line ->
       let cb = Array.of_list (ints (List.nth fs 3)) and cr = Array.of_list (ints (List.nth fs 4)) in
       let k = if avx2 then jdmerge_avx2_consts else jdmerge_sse2_consts in
       let row f (y : int array) = List.init w (fun i -> f (zi y.(i)) (zi cb.(i / 2)) (zi cr.(i / 2))) in
-      let s = row (asm_ycc_rgb k) y0 @ (if v2 then row (asm_ycc_rgb k) y1 else []) in
-      let c = row (c_ycc_rgb c_jdmerge_tabs) y0 @ (if v2 then row (c_ycc_rgb c_jdmerge_tabs) y1 else []) in
+      let alias = (List.nth (words line) 1) = "2" in     (* v2 = 2: both output rows are the same buffer; the last store wins *)
+      let v2 = v2 || alias in
+      let fin f g = match f (fun _ -> Z0) (fun r -> if iz r = 0 then g y0 else g y1) Z0 with Some l -> l | None -> [] in
+      let flat l = List.concat (List.map (fun ((a, b), c) -> [a; b; c]) l) in
+      let unflat l = List.map (fun (a, b, c) -> ((zi a, zi b), zi c)) (triples (il l)) in
+      let calls = if avx2 then merged_h2v2_call_rows_avx2 else merged_h2v2_call_rows_sse2 in
+      let s = if alias then unflat (fin (asm_merged2_final calls) (fun y -> flat (row (asm_ycc_rgb k) y))) else row (asm_ycc_rgb k) y0 @ (if v2 then row (asm_ycc_rgb k) y1 else []) in
+      let c = if alias then unflat (fin c_merged2_final (fun y -> flat (row (c_ycc_rgb c_jdmerge_tabs) y))) else row (c_ycc_rgb c_jdmerge_tabs) y0 @ (if v2 then row (c_ycc_rgb c_jdmerge_tabs) y1 else []) in
       Printf.printf "S %s | C %s\n" (pr3 s) (pr3 c)
   | "down" :: v2 :: iw :: wib :: _ ->
       let fs = fields line in
@@ -126,5 +132,5 @@ let () = iter_lines (fun line ->
       end
   | "fdctfst" :: xs ->
       let blk = zl (List.map int_of_string xs) in
-      Printf.printf "S %s | C %s\n" (prz (asm_fdct_ifast blk)) (prz (c_fdct_ifast blk))
+      Printf.printf "S %s | C %s ; W%d\n" (prz (asm_fdct_ifast blk)) (prz (c_fdct_ifast blk)) (if c_wraps14 blk then 1 else 0)
   | _ -> print_endline "-")
